@@ -1283,8 +1283,8 @@ def oracle_mirror(case, r):
         if "ok" in ra and "ok" in rb:
             pa = [p for p in ra["ok"]["peers"] if p["hostname"] == b]
             pb = [p for p in rb["ok"]["peers"] if p["hostname"] == a]
-            sa = sorted(_desc(p, with_fam, with_vrf) for p in pa)
-            sb = sorted(_swap(_desc(p, with_fam, with_vrf)) for p in pb)
+            sa = sorted((_desc(p, with_fam, with_vrf) for p in pa), key=repr)
+            sb = sorted((_swap(_desc(p, with_fam, with_vrf)) for p in pb), key=repr)
             if any(t[0] is None for t in sa) or any(t[1] is None for t in sb):
                 continue   # an address that is not an IP address: outside the property's domain
             if sa != sb:
